@@ -15,8 +15,12 @@ package main
 
 import (
 	"fmt"
+	"go/ast"
+	"go/token"
 	"go/types"
+	"reflect"
 	"sort"
+	"strconv"
 	"strings"
 
 	"golang.org/x/tools/go/ssa"
@@ -319,6 +323,8 @@ func (e *Engine) frameObligations(prop string) []*Obligation {
 			}
 			o.Result = res
 			out = append(out, o)
+		case "decodes":
+			out = append(out, e.decodesObligation(fs))
 		case "immutable-outside":
 			w := strings.Fields(fs.Text)
 			name := fmt.Sprintf("%s.%s#frame-modifies{%s}", shortPkg(fs.Pkg), "frames", fs.Text)
@@ -386,4 +392,257 @@ func (e *Engine) frameObligations(prop string) []*Obligation {
 		}
 	}
 	return out
+}
+
+// ---------------------------------------------------------------------------
+// decodes <query var> into <struct type>: every field the GraphQL query text selects has a struct field with
+// that JSON key in the type the answer is decoded into (encoding/json drops keys without a field silently;
+// what Unmarshal does is below the library model, so this is a static obligation over the query text and the
+// struct tags of the real code).
+
+type gqlSel struct {
+	name   string // field name, or fragment name for a spread
+	spread bool
+	sub    []*gqlSel
+}
+
+// parseGqlSelections: a small parser for the selection syntax (names, aliases, arguments skipped, spreads,
+// fragment definitions); enough for the introspection query.
+func parseGqlSelections(text string) (ops [][]*gqlSel, frags map[string][]*gqlSel, err error) {
+	var toks []string
+	for i := 0; i < len(text); {
+		c := text[i]
+		switch {
+		case c == ' ' || c == '\n' || c == '\t' || c == '\r' || c == ',':
+			i++
+		case c == '#':
+			for i < len(text) && text[i] != '\n' {
+				i++
+			}
+		case c == '{' || c == '}' || c == '(' || c == ')' || c == ':':
+			toks = append(toks, string(c))
+			i++
+		case strings.HasPrefix(text[i:], "..."):
+			toks = append(toks, "...")
+			i += 3
+		case c == '"':
+			j := i + 1
+			for j < len(text) && text[j] != '"' {
+				j++
+			}
+			toks = append(toks, "\"str")
+			i = j + 1
+		default:
+			j := i
+			for j < len(text) && (text[j] == '_' || text[j] == '$' || text[j] == '!' || text[j] == '%' || text[j] == '[' || text[j] == ']' || text[j] >= '0' && text[j] <= '9' || text[j] >= 'a' && text[j] <= 'z' || text[j] >= 'A' && text[j] <= 'Z') {
+				j++
+			}
+			if j == i {
+				j = i + 1
+			}
+			toks = append(toks, text[i:j])
+			i = j
+		}
+	}
+	pos := 0
+	var sels func() []*gqlSel
+	sels = func() []*gqlSel {
+		var out []*gqlSel
+		for pos < len(toks) && toks[pos] != "}" {
+			if toks[pos] == "..." {
+				pos++
+				if pos < len(toks) && toks[pos] == "on" { // inline fragment
+					pos += 2
+					if pos < len(toks) && toks[pos] == "{" {
+						pos++
+						out = append(out, sels()...)
+						pos++
+					}
+					continue
+				}
+				out = append(out, &gqlSel{name: toks[pos], spread: true})
+				pos++
+				continue
+			}
+			name := toks[pos]
+			pos++
+			if pos < len(toks) && toks[pos] == ":" { // alias: the response key is the alias
+				pos += 2
+			}
+			if pos < len(toks) && toks[pos] == "(" {
+				depth := 0
+				for pos < len(toks) {
+					if toks[pos] == "(" {
+						depth++
+					}
+					if toks[pos] == ")" {
+						depth--
+						if depth == 0 {
+							pos++
+							break
+						}
+					}
+					pos++
+				}
+			}
+			s := &gqlSel{name: name}
+			if pos < len(toks) && toks[pos] == "{" {
+				pos++
+				s.sub = sels()
+				pos++
+			}
+			out = append(out, s)
+		}
+		return out
+	}
+	frags = map[string][]*gqlSel{}
+	for pos < len(toks) {
+		switch toks[pos] {
+		case "fragment":
+			name := toks[pos+1]
+			for pos < len(toks) && toks[pos] != "{" {
+				pos++
+			}
+			pos++
+			frags[name] = sels()
+			pos++
+		case "{":
+			pos++
+			ops = append(ops, sels())
+			pos++
+		default: // query Name (...) {
+			for pos < len(toks) && toks[pos] != "{" {
+				pos++
+			}
+			if pos >= len(toks) {
+				return ops, frags, nil
+			}
+			pos++
+			ops = append(ops, sels())
+			pos++
+		}
+	}
+	if len(ops) == 0 {
+		return nil, nil, fmt.Errorf("no operation found in the query text")
+	}
+	return ops, frags, nil
+}
+
+func (e *Engine) decodesObligation(fs *FrameSpec) *Obligation {
+	name := fmt.Sprintf("%s.%s#decodes{%s}", shortPkg(fs.Pkg), "frames", fs.Text)
+	o := &Obligation{Name: name, Func: shortPkg(fs.Pkg) + ".frames", Kind: "decodes", Props: fs.Props, Expect: "unsat", Text: fs.Text, Pos: fmt.Sprintf("%s:%d", fs.File, fs.Line)}
+	res := &SolveResult{Solver: "static-dataflow", Status: "unsat"}
+	o.Result = res
+	w := strings.Fields(fs.Text)
+	if len(w) != 3 || w[1] != "into" {
+		res.Status, res.Detail = "error", "want: decodes <query variable> into <struct type>"
+		return o
+	}
+	p := e.pkgByPath[fs.Pkg]
+	if p == nil {
+		res.Status, res.Detail = "error", "package not found"
+		return o
+	}
+	// the longest string literal in the initialiser of the variable is the query text
+	text := ""
+	for _, f := range p.Syntax {
+		ast.Inspect(f, func(n ast.Node) bool {
+			vs, ok := n.(*ast.ValueSpec)
+			if !ok {
+				return true
+			}
+			for i, id := range vs.Names {
+				if id.Name != w[0] || i >= len(vs.Values) {
+					continue
+				}
+				ast.Inspect(vs.Values[i], func(m ast.Node) bool {
+					if bl, ok := m.(*ast.BasicLit); ok && bl.Kind == token.STRING {
+						if s, err := strconv.Unquote(bl.Value); err == nil && len(s) > len(text) {
+							text = s
+						}
+					}
+					return true
+				})
+			}
+			return true
+		})
+	}
+	tn, _ := p.Types.Scope().Lookup(w[2]).(*types.TypeName)
+	if text == "" || tn == nil {
+		res.Status, res.Detail = "error", "query variable or struct type not found"
+		return o
+	}
+	ops, frags, err := parseGqlSelections(text)
+	if err != nil {
+		res.Status, res.Detail = "error", err.Error()
+		return o
+	}
+	var missing []string
+	checked := 0
+	seen := map[string]bool{}
+	var walk func(sels []*gqlSel, t types.Type, where string)
+	walk = func(sels []*gqlSel, t types.Type, where string) {
+		for {
+			switch tt := t.(type) {
+			case *types.Pointer:
+				t = tt.Elem()
+				continue
+			case *types.Slice:
+				t = tt.Elem()
+				continue
+			}
+			break
+		}
+		st, ok := t.Underlying().(*types.Struct)
+		if !ok {
+			return // decoded into interface{} / a scalar: everything is kept or nothing is expected
+		}
+		tname := where
+		if n, ok := t.(*types.Named); ok {
+			tname = n.Obj().Name()
+		}
+		for _, s := range sels {
+			if s.spread {
+				if !seen[tname+"..."+s.name] {
+					seen[tname+"..."+s.name] = true
+					walk(frags[s.name], t, tname)
+				}
+				continue
+			}
+			if strings.HasPrefix(s.name, "__typename") {
+				continue
+			}
+			var field *types.Var
+			for i := 0; i < st.NumFields(); i++ {
+				key := strings.Split(reflect.StructTag(st.Tag(i)).Get("json"), ",")[0]
+				if key == "" {
+					key = st.Field(i).Name()
+				}
+				if key == s.name {
+					field = st.Field(i)
+				}
+			}
+			checked++
+			if field == nil {
+				missing = append(missing, tname+"."+s.name)
+				continue
+			}
+			if s.sub != nil {
+				walk(s.sub, field.Type(), tname+"."+s.name)
+			}
+		}
+	}
+	for _, op := range ops {
+		walk(op, tn.Type(), w[2])
+	}
+	sort.Strings(missing)
+	res.Detail = fmt.Sprintf("%d selected fields checked against the JSON keys of %s", checked, w[2])
+	if checked == 0 {
+		res.Status, res.Detail = "error", "nothing to check: the query text selects no field (vacuous)"
+	}
+	if len(missing) > 0 {
+		res.Status = "sat"
+		res.Model = "selected by the query but decoded by no struct field (the answer's value is dropped silently): " + strings.Join(missing, ", ")
+	}
+	return o
 }
